@@ -30,6 +30,7 @@ def run_check(prop, tier, *, lean_module, cases, execute, compare, oracle, class
   failures = []
   distinct = set()
   hist = collections.Counter()
+  known_hits = collections.Counter()
   samples = []
   r = common.rng(prop, tier)
 
@@ -54,12 +55,25 @@ def run_check(prop, tier, *, lean_module, cases, execute, compare, oracle, class
         samples.append(case)
     return diffs, fail, real, model
 
-  for tag, case in cases(tier, r):
+  def all_cases():
+    for e in common.known_findings(prop):
+      if e.get('witness'):
+        yield 'corpus', e['witness']
+    yield from cases(tier, r)
+
+  for tag, case in all_cases():
     if time_budget and time.time() - t0 > time_budget:
       break
     diffs, fail, real, model = one(tag, case)
     if fail:
-      failures.append((case, fail, real, model))
+      cls = classify(case, fail) if classify else None
+      if cls is not None and cls in known_open:
+        known_hits[cls] += 1
+        rep.known_finding(f"{cls}: {known_open[cls]['what_fails']}")
+        if diffs:
+          disagreements.append((case, diffs, real, model))
+      else:
+        failures.append((case, fail, real, model))
     elif diffs:
       disagreements.append((case, diffs, real, model))
     if len(failures) + len(disagreements) >= 25:
@@ -109,6 +123,7 @@ def run_check(prop, tier, *, lean_module, cases, execute, compare, oracle, class
       'disagreements': len(disagreements),
       'oracle_failures': len(failures),
       'input_distribution': dict(hist),
+      'known_finding_hits': dict(known_hits),
   }
   if extra_coverage:
     cov.update(extra_coverage() if callable(extra_coverage) else extra_coverage)
